@@ -198,6 +198,28 @@ def check_call(x, n, m, c, d, dtype, fx, exp):
             if worst is None or over > worst[0]:
                 worst = (over, i)
     if worst is None:
+        # samples of a vector function (documented: "fx: vector function values"): a column (N, 1) and a table (N, 2) whose
+        # second column is exactly twice the first; every column within its own allowance, output of the input's shape
+        if dtype != 'int64' and d in (n, 2 * mm):       # the monomial the rule differentiates to a constant, and the top degree
+            for form, F in (('column', fx.reshape(N, 1)), ('table', np.column_stack([fx, 2.0 * fx]))):
+                with warnings.catch_warnings(), np.errstate(all='ignore'):
+                    warnings.simplefilter('ignore')
+                    try:
+                        dF = np.asarray(fd_derivative(F.copy(), xa, n, m))
+                    except Exception as e:
+                        return ('vector-function-samples:%s:raised-%s' % (form, type(e).__name__),
+                                'n=%d m=%d N=%d, fx of shape %r: fd_derivative raised %s: %s' % (n, m, N, F.shape, type(e).__name__, e)), errs
+                if dF.shape != F.shape:
+                    return ('vector-function-samples:%s:shape' % form, 'fx of shape %r gave an output of shape %r' % (F.shape, dF.shape)), errs
+                for col in range(F.shape[1]):
+                    for i in range(N):
+                        exact, allow, sw, ss = exp[i]
+                        if not (np.isfinite(dF[i, col]) and
+                                float(abs(Fraction(float(dF[i, col])) - (col + 1) * exact)) <= (col + 1) * allow + 4 * EPS * abs(float(exact)) * (col + 1)):
+                            return ('vector-function-samples:%s:value' % form,
+                                    'n=%d m=%d N=%d, fx of shape %r: output[%d, %d] = %r, exact %.17g (allowance %.3g); the same '
+                                    'samples as a flat vector are within the allowance' % (n, m, N, F.shape, i, col, dF[i, col],
+                                                                                         float((col + 1) * exact), (col + 1) * allow)), errs
         return None, errs
     i = worst[1]
     exact, allow, sw, ss = exp[i]
